@@ -62,7 +62,7 @@ def anchors(A):
     st = [(t, v) for c, t, v in S._field_stores if t.attr == 'input_tasks']
     if not st:
         raise AnalysisError('anchor: store to TaskParameterConfig.input_tasks not found')
-    out.append(('key/input-keys-map', normalise(st[0][1]), where(init, st[0][0])))
+    out.append(('key/input-keys-map', normalise(st[-1][1]), where(init, st[-1][0])))
     rs = A.cls('ReprStr')
     new = rs.methods.get('__new__')
     if new is None:
